@@ -4,7 +4,7 @@ Executable Spec of C14 over what the SAME ammo file delivers through two provide
     (a constructor that rejects the file must reject it in both modes);
   * chosencases: the delivered sequence is exactly the first `T` entries of the endlessly repeated list of chosen
     entries (file order), `T = min⁺(limit, passes · #chosen)` — the limit counts DELIVERED entries — or the
-    cancel cap when there is no bound;
+    cancel cap when there is no bound or the cap lies below that count (run cancelled in the middle);
   * every delivered ammo carries the tag of its entry.
 A file from which nothing is chosen (an empty file included) must deliver nothing and end the same way on both
 paths (`nomatch`).
@@ -62,12 +62,29 @@ def isChosenTag (cases : List String) (t : String) : Bool :=
 def chosenIds (c : Cell) : List Nat :=
   ((List.range c.tags.length).zip c.tags).filterMap fun (i, t) => if isChosenTag c.cases t then some i else none
 
-/-- number of deliveries after which the run stops; `none` = no bound (cut at cap) -/
+/-- number of deliveries after which the run stops by itself; `none` = no bound -/
 def expectedCount (c : Cell) : Option Nat := expected c.limit c.passes (chosenIds c).length
+
+/-- the harness' cancellation (after `cap` acquisitions) is what ends the run: no bound, or the cap lies below the
+number of deliveries of the bounded run (a run cancelled in the middle) -/
+def cutExpected (c : Cell) : Bool :=
+  match expectedCount c with
+  | some m => decide (c.cap < m)
+  | none => true
+
+/-- `cap` = the number of deliveries of the bounded run: whether the provider sees its bound or the cancellation
+first is a race of the harness, the cell decides nothing -/
+def inconclusive (c : Cell) : Bool := expectedCount c == some c.cap
+
+/-- number of delivered ammo the harness records -/
+def expectedLen (c : Cell) : Nat :=
+  match expectedCount c with
+  | some m => if c.cap < m then c.cap else m
+  | none => c.cap
 
 def expectedSeq (c : Cell) : List Nat :=
   let F := chosenIds c
-  let t := match expectedCount c with | some m => m | none => c.cap
+  let t := expectedLen c
   ((List.replicate t F).flatten).take t
 
 /-- same delivered sequence (and the same need to be cut at the cap) -/
@@ -77,7 +94,7 @@ def endEquivOk (o : Obs) : Bool := o.s.run == o.p.run && o.s.end_ == o.p.end_
 def equivOk (o : Obs) : Bool := seqEquivOk o && endEquivOk o
 def chosenOk (c : Cell) (o : Obs) : Bool :=
   o.s.seq == expectedSeq c && o.p.seq == expectedSeq c &&
-  o.s.cut == (expectedCount c).isNone && o.p.cut == (expectedCount c).isNone
+  o.s.cut == cutExpected c && o.p.cut == cutExpected c
 def tagsOk (o : Obs) : Bool := o.tagsOk
 
 def noMatch (c : Cell) : Bool := (chosenIds c).length == 0
